@@ -121,13 +121,66 @@ def run_items(prop: str, items: list, watchdog_s: float) -> tuple[list, list]:
                     f.cancel()
                 for p in list(getattr(ex, "_processes", {}).values()):
                     p.kill()
-    except BrokenProcessPool as e:
-        inconclusive.append(f"a worker process died: {e}")
+    except BrokenProcessPool:
+        # a worker was killed (segmentation fault in native code, abort, out-of-memory killer ...).  The pool cannot say
+        # which item did it: every unfinished item is re-run alone in its own interpreter, twice if it dies there.
+        done = {r["_idx"] for r in results}
+        rest = [(i, it) for i, it in enumerate(items) if i not in done]
+        from concurrent.futures import ThreadPoolExecutor
+
+        with ThreadPoolExecutor(max_workers=n) as tp:
+            for r in tp.map(lambda x: _run_isolated(prop, x[0], x[1], max(60.0, deadline - time.time())), rest):
+                results.append(r)
     results.sort(key=lambda r: r["_idx"])
     for r in results:
-        if "_harness_error" in r:
+        if "_harness_error" in r and "_crash" not in r:
             inconclusive.append("harness error in item %d: %s" % (r["_idx"], r["_harness_error"][-600:]))
     return results, inconclusive
+
+
+_SUT_SIGNALS = {4: "SIGILL", 6: "SIGABRT", 7: "SIGBUS", 8: "SIGFPE", 11: "SIGSEGV"}
+
+
+def _run_isolated(prop, idx, item, timeout):
+    """One item in its own interpreter; a death by SIGSEGV / SIGABRT / SIGBUS / SIGFPE / SIGILL that repeats is attributed
+    to the item (`_crash`), anything else (SIGKILL, timeout, non-reproducible) stays a harness error = inconclusive."""
+    import pickle
+    import subprocess
+    import tempfile
+
+    deaths = []
+    for _attempt in range(2):
+        with tempfile.TemporaryDirectory() as td:
+            ip, op = os.path.join(td, "i.pkl"), os.path.join(td, "o.pkl")
+            with open(ip, "wb") as fh:
+                pickle.dump((prop, idx, item), fh)
+            try:
+                p = subprocess.run([PY, "-X", "faulthandler", "-c", "from vf.core import _isolated_main; _isolated_main()", ip, op],
+                                   cwd=str(ROOT), env=dict(os.environ), capture_output=True, text=True, timeout=timeout)
+            except subprocess.TimeoutExpired:
+                return {"_harness_error": f"isolated re-run of item {idx} timed out", "_idx": idx, "_item": item, "_wall": timeout}
+            if p.returncode == 0 and os.path.exists(op):
+                with open(op, "rb") as fh:
+                    return pickle.load(fh)
+            deaths.append((p.returncode, p.stderr[-1500:]))
+            if -p.returncode not in _SUT_SIGNALS:
+                break
+    rc, err = deaths[-1]
+    res = {"_harness_error": f"isolated re-run of item {idx} ended with exit code {rc}: {err[-600:]}", "_idx": idx, "_item": item, "_wall": 0.0}
+    if len(deaths) == 2 and all(-d[0] in _SUT_SIGNALS for d in deaths):
+        frames = [l.strip() for l in err.splitlines() if l.strip().startswith("File ") and "/src/_gettsim" in l]
+        res["_crash"] = dict(signal=_SUT_SIGNALS[-rc], where=frames[:3], stderr=err[-1200:])
+    return res
+
+
+def _isolated_main():
+    import pickle
+
+    prop, idx, item = pickle.load(open(sys.argv[1], "rb"))
+    _init_worker(prop)
+    res = _run_one(idx, item)
+    with open(sys.argv[2], "wb") as fh:
+        pickle.dump(res, fh)
 
 
 # ------------------------------------------------------------------ known findings
@@ -201,6 +254,13 @@ def main(argv=None):
     summary = mod.summarize(results, tier, seed)
     inconclusive += summary.get("inconclusive", [])
     violations = summary.get("violations", [])
+    for r in results:
+        if "_crash" in r:  # the interpreter died (twice) inside the system under test while running this item
+            c = r["_crash"]
+            where = c["where"][0] if c["where"] else "native code"
+            violations.append(dict(key=f"crash:{c['signal']}:{where.split(', in ')[-1] if ', in ' in where else where}",
+                                   what=f"the interpreter is killed by {c['signal']} while the system under test runs a valid work item "
+                                        f"({where}); reproduced in two fresh interpreters", witness=c, item=r["_item"]))
 
     known = load_known(prop)
     seen_known, new = {}, []
